@@ -24,6 +24,7 @@ type pReq struct {
 	Out  int64
 	Echo int64
 	Fail bool
+	Fire bool // the first rule this request runs triggers the next planned update from inside the rule
 }
 
 type pRule struct {
@@ -80,11 +81,14 @@ type poolCase struct {
 	Ops   []pOp   `json:"ops"`
 	// cap
 	Clients  int     `json:"clients,omitempty"`
+	Warm     int     `json:"warm,omitempty"` // sequential requests before the simultaneous ones
 	Peak     int     `json:"peak,omitempty"`
 	Done     int     `json:"done,omitempty"`
 	Peak2    int     `json:"peak2,omitempty"`
 	Execs    []pExec `json:"execs,omitempty"`
+	Execs2   []pExec `json:"execs2,omitempty"`  // second round (cap) / requests through other entry points (iso)
 	Probe    *pExec  `json:"probe,omitempty"`
+	Probes   []pExec `json:"probes,omitempty"` // later requests that inject nothing / select nothing
 	Mutated  bool    `json:"mutated,omitempty"` // a returned result map changed after the call returned
 	Note     string  `json:"note,omitempty"`
 	BuildErr string  `json:"buildErr,omitempty"`
@@ -96,7 +100,7 @@ func pRuleText(r pRule, body string) string {
 	return fmt.Sprintf("rule \"%s\" \"v%d\" salience %d\nbegin\n%s return %d * 1000 + q.Id\nend\n", r.Name, r.Ver, r.Sal, body, r.Ver)
 }
 
-const stdBody = " q.Out = q.Id\n park(q.Id)\n if q.Fail {\n  boom()\n }\n q.Echo = q.Id\n"
+const stdBody = " q.Out = q.Id\n if q.Fire {\n  upd(q.Id)\n }\n park(q.Id)\n if q.Fail {\n  boom()\n }\n q.Echo = q.Id\n"
 
 func pText(rules []pRule, body string) string {
 	var sb strings.Builder
@@ -170,7 +174,7 @@ type poolHost struct {
 	clock int64
 	pool  *engine.GenginePool
 	max   int
-	upd   func() // what a rule's upd() call does
+	upd   func(id int64) // what a rule's upd(id) call does
 }
 
 func (h *poolHost) tick() int64 { return atomic.AddInt64(&h.clock, 1) }
@@ -179,9 +183,9 @@ func (h *poolHost) apis() map[string]interface{} {
 	return map[string]interface{}{
 		"park": func(id int64) { h.pk.Load().(*parker).park(id) },
 		"boom": func() { panic("boom") },
-		"upd": func() {
+		"upd": func(id int64) {
 			if h.upd != nil {
-				h.upd()
+				h.upd(id)
 			}
 		},
 	}
@@ -210,6 +214,69 @@ func (h *poolHost) request(id int64, fail bool, inject bool) pExec {
 			}
 		}()
 		e, m := h.pool.ExecuteRulesWithMultiInputWithSpecifiedEM(data)
+		if e != nil {
+			ex.Err = e.Error()
+			if len(ex.Err) > 160 {
+				ex.Err = ex.Err[:160]
+			}
+		}
+		ex.Results = valuesOf(m)
+		ex.raw = m
+	}()
+	ex.End = h.tick()
+	ex.Out, ex.Echo = q.Out, q.Echo
+	return ex
+}
+
+var updMethods = []string{"em", "sort", "conc", "mix", "inv", "nsmc", "ncms", "ncmc", "dag", "sel"}
+
+// a request through another entry point of the pool
+func (h *poolHost) requestVia(how string, id int64) pExec {
+	return h.requestWith(how, &pReq{Id: id}, nil)
+}
+
+func (h *poolHost) requestWith(how string, q *pReq, names []string) pExec {
+	id := q.Id
+	ex := pExec{Id: id, Start: h.tick(), Method: how}
+	func() {
+		defer func() {
+			if p := recover(); p != nil {
+				ex.Panic = fmt.Sprint(p)
+			}
+		}()
+		var e error
+		var m map[string]interface{}
+		switch how {
+		case "reqresp":
+			e, m = h.pool.ExecuteRulesWithSpecifiedEM("", nil, "q", q)
+		case "selected-none":
+			e, m = h.pool.ExecuteSelectedRules(map[string]interface{}{"q": q}, []string{"nosuch"})
+		default:
+			data := map[string]interface{}{"q": q}
+			n := len(names)
+			switch how {
+			case "em":
+				e, m = h.pool.ExecuteRulesWithMultiInputWithSpecifiedEM(data)
+			case "sort":
+				e, m = h.pool.Execute(data, true)
+			case "conc":
+				e, m = h.pool.ExecuteConcurrent(data)
+			case "mix":
+				e, m = h.pool.ExecuteMixModel(data)
+			case "inv":
+				e, m = h.pool.ExecuteInverseMixModel(data)
+			case "nsmc":
+				e, m = h.pool.ExecuteNSortMConcurrent(1, n-1, true, data)
+			case "ncms":
+				e, m = h.pool.ExecuteNConcurrentMSort(1, n-1, true, data)
+			case "ncmc":
+				e, m = h.pool.ExecuteNConcurrentMConcurrent(1, n-1, true, data)
+			case "dag":
+				e, m = h.pool.ExecuteDAGModel([][]string{names[:1], names[1:]}, data)
+			case "sel":
+				e, m = h.pool.ExecuteSelectedRules(data, names)
+			}
+		}
 		if e != nil {
 			ex.Err = e.Error()
 			if len(ex.Err) > 160 {
@@ -326,10 +393,37 @@ func genPoolCase(r *rng, i int, mode string) *poolCase {
 				c.Ops = append(c.Ops, pOp{Op: "setModel", Model: []int{1, 2, 3, 4, 0, 5, -1}[r.intn(7)]})
 			}
 		}
+	case "upd":
+		// distinct saliences: the order of the rules is the same in every version
+		n := 3 + r.intn(3)
+		c.Init = nil
+		for k, j := range r.perm(len(pNames))[:n] {
+			c.Init = append(c.Init, pRule{pNames[j], int64(10 - k), 0})
+		}
+		nu := 1 + r.intn(3)
+		for k := 0; k < nu; k++ {
+			ver := int64(k + 1)
+			op := pOp{Op: "full", Inside: r.chance(1, 2)}
+			if r.chance(1, 2) {
+				op.Op = "incr"
+			}
+			for _, ru := range c.Init {
+				if op.Op == "full" || r.chance(2, 3) {
+					op.Rules = append(op.Rules, pRule{ru.Name, ru.Sal, ver})
+				}
+			}
+			if len(op.Rules) == 0 {
+				op.Rules = append(op.Rules, pRule{c.Init[0].Name, c.Init[0].Sal, ver})
+			}
+			c.Ops = append(c.Ops, op)
+		}
+		c.Clients = r.intn(1000) // selects the request methods
 	case "cap":
 		c.Clients = int(c.Max) + 1 + r.intn(4)
+		c.Warm = r.intn(4)
 	case "iso":
 		c.Clients = 1 + r.intn(int(c.Max))
+		c.Warm = r.intn(3)
 	}
 	return c
 }
@@ -390,6 +484,13 @@ func runPoolCase(c *poolCase) {
 		}
 		return out
 	}
+	for k := 0; k < c.Warm; k++ {
+		// traffic below the pool's minimum: only resident instances are used and handed back
+		h.pk.Store(newParker(0))
+		h.pk.Load().(*parker).openGate()
+		h.request(int64(900+k), false, true)
+		time.Sleep(3 * time.Millisecond)
+	}
 	switch c.Mode {
 	case "mgmt":
 		for k := range c.Ops {
@@ -411,6 +512,78 @@ func runPoolCase(c *poolCase) {
 			}
 			op.Execs, _ = h.round(ids(100+10*k, int(c.Max)), nil, 400*time.Millisecond)
 		}
+	case "upd":
+		var names []string
+		for _, ru := range c.Init {
+			names = append(names, ru.Name) // in salience order
+		}
+		next := 0
+		var umu sync.Mutex
+		fired := map[int64]bool{}
+		apply := func(inside bool) {
+			if next >= len(c.Ops) {
+				return
+			}
+			op := &c.Ops[next]
+			next++
+			op.Start = h.tick()
+			h.applyOp(op, 0)
+			op.End = h.tick()
+			op.Inside = inside
+		}
+		h.upd = func(id int64) {
+			umu.Lock()
+			defer umu.Unlock()
+			if fired[id] {
+				return
+			}
+			fired[id] = true
+			apply(true)
+		}
+		open := newParker(0)
+		open.openGate()
+		sel := c.Clients
+		pick := func() string { sel = sel*7 + 3; return updMethods[(sel/5)%len(updMethods)] }
+		id := int64(1)
+		for next < len(c.Ops) {
+			if c.Ops[next].Inside {
+				// the update is issued from inside the first rule the request runs
+				h.pk.Store(open)
+				c.Execs = append(c.Execs, h.requestWith(pick(), &pReq{Id: id, Fire: true}, names))
+				id++
+			} else {
+				// the update runs in another goroutine while max requests are parked mid-execution
+				n := int(c.Max)
+				pk := newParker(n)
+				h.pk.Store(pk)
+				res := make([]pExec, n)
+				var wg sync.WaitGroup
+				for k := 0; k < n; k++ {
+					wg.Add(1)
+					go func(k int, id int64, how string) {
+						defer wg.Done()
+						res[k] = h.requestWith(how, &pReq{Id: id}, names)
+					}(k, id, pick())
+					id++
+				}
+				select {
+				case <-pk.allIn:
+				case <-time.After(2 * time.Second):
+				}
+				umu.Lock()
+				apply(false)
+				umu.Unlock()
+				pk.openGate()
+				wg.Wait()
+				c.Execs = append(c.Execs, res...)
+			}
+			// afterwards every instance must run the new version
+			h.pk.Store(open)
+			for k := 0; k < int(c.Max); k++ {
+				c.Execs = append(c.Execs, h.requestWith(pick(), &pReq{Id: id}, names))
+				id++
+			}
+		}
 	case "cap":
 		failing := map[int64]bool{}
 		all := ids(1, c.Clients)
@@ -428,13 +601,23 @@ func runPoolCase(c *poolCase) {
 		}
 		c.Execs = execs
 		// the instances must all be back: max simultaneous parkers again
-		_, c.Peak2 = h.round(ids(50, int(c.Max)), nil, 800*time.Millisecond)
+		c.Execs2, c.Peak2 = h.round(ids(50, int(c.Max)), nil, 800*time.Millisecond)
 	case "iso":
 		execs, _ := h.round(ids(1, c.Clients), nil, 500*time.Millisecond)
 		c.Execs = execs
 		// a later request that injects nothing must not see anybody's q
 		pr := h.request(77, false, false)
 		c.Probe = &pr
+		// the other entry points: request / response pair (only the response injected, under the
+		// name q), then again a request that injects nothing; selected rules none of which exists
+		for k := 0; k < int(c.Max)+1; k++ {
+			ex := h.requestVia("reqresp", int64(200+k))
+			c.Execs2 = append(c.Execs2, ex)
+			pr := h.request(int64(300+k), false, false)
+			c.Probes = append(c.Probes, pr)
+			sel := h.requestVia("selected-none", int64(400+k))
+			c.Probes = append(c.Probes, sel)
+		}
 		// more traffic, then the result maps handed out earlier must be unchanged
 		h.round(ids(60, int(c.Max)), nil, 500*time.Millisecond)
 		for _, ex := range execs {
@@ -443,5 +626,7 @@ func runPoolCase(c *poolCase) {
 			}
 		}
 	}
-	sort.SliceStable(c.Execs, func(a, b int) bool { return c.Execs[a].Id < c.Execs[b].Id })
+	if c.Mode != "upd" {
+		sort.SliceStable(c.Execs, func(a, b int) bool { return c.Execs[a].Id < c.Execs[b].Id })
+	}
 }
